@@ -4,6 +4,8 @@ import (
 	"net"
 	"sync"
 	"time"
+
+	"github.com/pion/rtp"
 )
 
 // multicastIP returns the IPv4 address of an interface that is up and multicast-capable and is not the loopback
@@ -78,4 +80,9 @@ func containsAny(s string, subs ...string) bool {
 		}
 	}
 	return false
+}
+
+// mkPkt is a small RTP packet of the given payload type and sequence number.
+func mkPkt(pt uint8, seq uint16) *rtp.Packet {
+	return &rtp.Packet{Header: rtp.Header{Version: 2, PayloadType: pt, SequenceNumber: seq, Timestamp: uint32(seq) * 90}, Payload: []byte{1, 2, 3, 4}}
 }
